@@ -157,6 +157,9 @@ def random():
     ctx.draw(1)
     r = ctx.real(f"{stem}.r", 0, 1, hi_strict=True)
     ctx.rng_log.append({"fn": "random", "call": k, "result": r})
+    hook = getattr(ctx, "random_hook", None)
+    if hook is not None:
+        hook(r)  # a harness may place the variate in a region before the library looks at it (part of the harness' case split)
     return r
 
 
